@@ -73,3 +73,9 @@ claim("C06",
   "Selection must follow the documented precedence (exact string, without parameters, type/*, */*; undeclared rejected; empty header matches */* only); a missing or empty body is rejected exactly when the body is required; the public decoders must return the value that was encoded; ValidateRequestBody / ValidateRequest must accept exactly when the value satisfies the schema read as a request (readOnly forbidden and not required, writeOnly allowed, ExcludeReadOnlyValidations honoured).",
   "Trusted: refMatch (15 lines), internal/styleser and the multipart/form encoders, internal/refschema in request mode. Wildcard matches onto content types without a registered decoder are not asserted. Members whose text is not a serialisation of their type are not yet generated.",
   "DESIGN.md#c06")
+
+claim("C07",
+  "model-based property testing: a truth-table model of request validation (security requirement lists at two levels with per-scheme callback outcomes, effective parameters with overrides, body, exclusion options) compared with ValidateRequest in fail-first and multi-error mode; the security table and the parts table are enumerated completely, random combinations are sampled with rapid; the authentication callback's call log is an observed history checked against the effective requirement list",
+  "ValidateRequest must succeed exactly when the model says every part passes; in multi-error mode the members of the returned MultiError must be exactly the failing parts (security / each parameter by identity / body); the callback must only ever be called for schemes and scopes of the requirement list in effect, and never when that list is empty.",
+  "Trusted: the model (about 40 lines in props/c07), validity of each part by construction. Parameters use integer schemas and form/simple defaults only (C05 covers decoding).",
+  "DESIGN.md#c07")
